@@ -17,7 +17,7 @@ func uniV(n int, vals []string) []*doc.Tree {
 		Attr: "rule", AttrNames: []string{"a", "x"}, Vals: vals, ValFull: true})
 }
 
-var c07Vals = []string{"1", "2", "x", ""}
+var c07Vals = []string{"1", "2", "x", "", " -1 "}
 
 func numOperands() []gen.Expr {
 	return []gen.Expr{gen.N(0), gen.N(1), gen.N(2), &gen.Neg{E: gen.N(1)}, &gen.Num{V: 0.5, Lit: "0.5"},
